@@ -12,7 +12,28 @@ PROP = "C07"
 BODY_S = 4          # how long the scripted command runs when nobody stops it
 
 
+ORPHAN_S = "4.0737"      # the (recognisable) duration of the child an `orphan` script leaves in the background
+
+
+def orphan_pids():
+    """children of `orphan` scripts that are still running: `sleep 4.0737` (found by their command line)"""
+    res = []
+    for pid in os.listdir("/proc"):
+        if not pid.isdigit():
+            continue
+        try:
+            cl = open("/proc/%s/cmdline" % pid, "rb").read().split(b"\0")
+        except OSError:
+            continue
+        if len(cl) >= 2 and cl[0].endswith(b"sleep") and cl[1] == ORPHAN_S.encode():
+            res.append(int(pid))
+    return res
+
+
 def script_text(out, hup):
+    if out == "orphan":
+        # the shell exits at once; a child it started in the background goes on and holds the output
+        return "#!/bin/bash\nsleep %s &\necho started\nexit 0\n" % ORPHAN_S
     lines = ["#!/bin/bash"]
     if out == "redirect":
         lines.append("exec >>cmd.log 2>&1")
@@ -125,8 +146,26 @@ def run(tier, seed):
 
     with ThreadPoolExecutor(max_workers=8) as ex:
         outs = list(ex.map(one, scen))
+    # the shell of the command has exited, a child of it holds the output: asked to stop, the runner signals the process
+    # group all the same (one scenario at a time: the children are recognised by their command line)
+    for kind in ("stop", "cancel", "term"):
+        sc = {"out": "orphan", "hup": "default", "kind": kind, "interruptible": True}
+        for pid in orphan_pids():
+            os.kill(pid, signal.SIGKILL)
+        r = one(sc)
+        time.sleep(0.3)
+        left = orphan_pids()
+        for pid in left:
+            os.kill(pid, signal.SIGKILL)
+        scen.append(sc)
+        outs.append(r)
+        rep.count("runner:orphaned child scenarios")
+        if left:
+            ofail.append({"what": "the shell of a command exited leaving a child in the background; asked to stop by %s the runner returned after %s ms and the child was still running" % (kind, r.get("ElapsedMs")),
+                          "detail": {"scenario": sc, "script": script_text("orphan", "default"), "left": len(left)},
+                          "tag": {"site": "runner", "out": "orphan", "kind": kind}})
     for sc, r in zip(scen, outs):
-        mev = (["eof"] if sc["out"] == "redirect" else ["line"]) + [{"timeout": "cancel"}.get(sc["kind"], sc["kind"])]
+        mev = (["eof"] if sc["out"] == "redirect" else ["line", "exitKeep"] if sc["out"] == "orphan" else ["line"]) + [{"timeout": "cancel"}.get(sc["kind"], sc["kind"])]
         m1 = model.ask("C07 runner %d %d 1 %s" % (sc["interruptible"], sc["kind"] == "term", ",".join(mev)))
         m2 = model.ask("C07 runner %d %d 1 %s" % (sc["interruptible"], sc["kind"] == "term", ",".join(mev + ["twoSec"])))
         if "hup=true" in m1 and sc["hup"] == "default":
@@ -193,6 +232,13 @@ def run(tier, seed):
     # finished: shutdown stage 3): the collector must still be told to terminate
     add("evaluation error in the final audit round", e2e_play(scene_x="slow12", extra_actions="  :slow12 sleep 1.2",
         audience="audience\n  judge audits throughout\n  judge computes y as t > 0.9 ? sqrt(mood) : 0\n  judge watches y\nend\n"), 10, 2, expect_fail=True, body_err=True)
+    # a spotlight whose shell exits at once while a child it started in the background goes on (and holds the output):
+    # when the play ends the child must be stopped like any other member of the command's process group (fix bfee10c:
+    # the group was looked up through its leader, which is gone)
+    add("spotlight whose shell has exited, leaving a child in the background",
+        e2e_play(scene_x="slow12", extra_actions="  :slow12 sleep 1.2", spot="sleep 43 & exit 0"), 10, 2)
+    add("spotlight whose shell has exited, leaving a child in the background (SIGTERM)",
+        e2e_play(spot="sleep 43 & exit 0"), 8, 2, sig=(1.0, signal.SIGTERM))
     # every spotlight fails at once while the prompter still has mood changes to announce (the conductor is held back
     # before it looks at the components' results): the play must end with the spotlight's failure, not crash
     add("the only spotlight fails while the prompter still announces mood changes",
